@@ -6,7 +6,10 @@ use crate::{
 use super::{
     Line, ParsedStatement,
     expression::parse_expression,
-    inline::{parse_condition, parse_inline_conditional, tokenize_inline_content},
+    inline::{
+        parse_condition, parse_inline_conditional, split_at_condition_colon,
+        tokenize_inline_content,
+    },
 };
 
 pub fn looks_like_conditional(content: &str) -> bool {
@@ -60,7 +63,7 @@ pub fn parse_conditional(
         .trim()
         .strip_prefix('{')
         .ok_or_else(|| CompilerError::invalid_source("expected conditional block".to_owned()))?;
-    let (condition_text, rest_after_colon) = header.split_once(':').ok_or_else(|| {
+    let (condition_text, rest_after_colon) = split_at_condition_colon(header).ok_or_else(|| {
         CompilerError::invalid_source("conditional block is missing ':'".to_owned())
     })?;
 
@@ -358,7 +361,7 @@ pub fn parse_multi_branch_conditional(
                 continue;
             }
 
-            let (condition, rest) = match header.split_once(':') {
+            let (condition, rest) = match split_at_condition_colon(header) {
                 Some(pair) => pair,
                 None => {
                     // Bare default branch: `- content` with no colon — treat as else
@@ -519,7 +522,7 @@ fn parse_switch_conditional(
                 continue;
             }
 
-            let (case_text, rest) = match header.split_once(':') {
+            let (case_text, rest) = match split_at_condition_colon(header) {
                 Some(pair) => pair,
                 None => {
                     // Bare default branch `- content` with no colon
